@@ -433,6 +433,17 @@ impl Corpus {
       );
       sources.get_mut(m).unwrap().push_str(&t);
     }
+    // mutually recursive enums with nullary variants, in two different modules (the enum layout
+    // choice of the specializer depends on which of the two is "currently being processed")
+    let (ra, rb) = (0usize, 1usize % n_modules);
+    let rec_a = format!("import {{ RecB }} from {};\n", mod_names[rb].join("."));
+    let rec_b = format!("import {{ RecA }} from {};\n", mod_names[ra].join("."));
+    if ra != rb {
+      let ta = sources.get_mut(&mod_names[ra]).unwrap();
+      *ta = format!("{rec_a}{ta}\nclass RecA(AX, AY(RecB), AZ(int)) {{\n  method show(): Str = match this {{ AX -> \"A.X\", AY(b) -> \"A.Y(\" :: b.show() :: \")\", AZ(i) -> Str.fromInt(i) }}\n}}\n\n");
+      let tb = sources.get_mut(&mod_names[rb]).unwrap();
+      *tb = format!("{rec_b}{tb}\nclass RecB(BP, BQ(RecA)) {{\n  method show(): Str = match this {{ BP -> \"B.P\", BQ(a) -> \"B.Q(\" :: a.show() :: \")\" }}\n}}\n\n");
+    }
     // main: call every function from here with literals; different literals for the same function
     let main: ModName = vec!["app".into(), "Main".into()];
     let mut t = String::new();
@@ -454,6 +465,9 @@ impl Corpus {
     for (mi, m) in mod_names.iter().enumerate() {
       t.push_str(&format!("import {{ SameShape{mi} }} from {};\n", m.join(".")));
     }
+    if ra != rb {
+      t.push_str(&format!("import {{ RecA }} from {};\nimport {{ RecB }} from {};\n", mod_names[ra].join("."), mod_names[rb].join(".")));
+    }
     t.push_str("import { Box, Shape } from shared.Containers;\n\nclass Main {\n  function main(): unit = {\n");
     for (li, (_, cn)) in loop_classes.iter().enumerate() {
       t.push_str(&format!("    {cn}.run({});\n", li % 2));
@@ -463,6 +477,9 @@ impl Corpus {
     }
     for mi in 0..n_modules {
       t.push_str(&format!("    SameShape{mi}.run();\n"));
+    }
+    if ra != rb {
+      t.push_str("    Process.println(RecA.AY(RecB.BP()).show() :: \" \" :: RecB.BQ(RecA.AX()).show() :: \" \" :: RecA.AY(RecB.BQ(RecA.AZ(7))).show() :: \" \" :: RecA.AX().show() :: \" \" :: RecB.BP().show());\n");
     }
     for (i, f) in fns.iter().enumerate() {
       for _ in 0..rng.range(1, 2) {
